@@ -143,6 +143,31 @@ pub fn run(ctx: &mut Ctx, o: &AttackOpts) {
             }
             go(ctx, &m, false);
         }
+        // the holder itself as adversary: a KB-JWT validly signed with the holder key but LACKING a claim, against a
+        // verifier whose expectation for that claim is the empty string (absent must not pass for empty)
+        if fam == "kb" {
+            if let Some(kbt) = &m.kb {
+                let kp: Vec<&str> = kbt.splitn(3, '.').collect();
+                if kp.len() == 3 {
+                    for missing in ["nonce", "aud"] {
+                        let mut pl: Value = unb64(kp[1]).and_then(|b| serde_json::from_slice(&b).ok()).unwrap_or(json!({}));
+                        pl.as_object_mut().map(|o| o.remove(missing));
+                        let msg_text = format!("{}.{}", kp[0], b64(pl.to_string().as_bytes()));
+                        let sig = jsonwebtoken::crypto::sign(msg_text.as_bytes(), &crate::keys::enc(hk), hkalg.parse().unwrap()).unwrap();
+                        let jwt = format!("{}.{}", msg_text, sig);
+                        ctx.emit(crate::jt::obj(&[("ev", crate::jt::qs("AdvSign")), ("key", crate::jt::qs(hk)), ("alg", crate::jt::qs(hkalg)), ("id", crate::jt::qs(&jwt))]));
+                        let mut m2 = m.clone();
+                        m2.kb = Some(jwt);
+                        let (n, a) = (kb.nonce.clone().unwrap(), kb.aud.clone().unwrap());
+                        let (nn, aa) = if missing == "nonce" { (String::new(), a) } else { (n, String::new()) };
+                        for f in [fmt, fmt.other()] {
+                            let raw = msg::render(&m2, f, JsonVariant::KbAbsent);
+                            verify(ctx, &VerifyArgs { raw: &raw, fmt: f, res: &res, aud: Some(&aa), nonce: Some(&nn), pair: 0, expect: NONE.to_string() });
+                        }
+                    }
+                }
+            }
+        }
         // expectations that are prefixes / extensions of what the KB-JWT names
         if fam == "kb" {
             let (n, a) = (kb.nonce.clone().unwrap(), kb.aud.clone().unwrap());
